@@ -68,6 +68,14 @@ void h_ctors(void) {
     V_WITNESS("h_ctors end");
 }
 
+
+/* representation invariant of a session table as far as consumers outside the table code rely on it */
+static bool tab_consistent(const session_table *t) {
+    unsigned nv = 0; bool allc = true;
+    for (int i = 0; i < SESSION_TABLE_MAX_ENTRIES; i++) if (t->entries[i].valid) { nv++; if (!t->entries[i].complete) allc = false; }
+    return t->count == nv && t->all_complete == allc;
+}
+
 /* degraded start-up: whatever the constructors hand out after allocation faults (in particular automata whose
  * extra state is missing) must be safe to drive: the periodic tick and the band / mapping helpers never dereference
  * the missing part. */
@@ -87,7 +95,7 @@ void h_degraded(void) {
     V_ASSUME(in.ms <= 2 && in.es <= 2);
     if (m) m->current_state = in.ms;
     if (e) { e->current_state = in.es; if (e->extra) { ((band_state *)e->extra)->hello_timeout_ts = in.ih; ((band_state *)e->extra)->block_timeout_ts = in.ib; } }
-    if (t) *t = in.tab;
+    if (t) { *t = in.tab; V_ASSUME(tab_consistent(t)); }
     V_ASSUME(in.now_s < (1ull << 62) && in.now_ms < (1ull << 62));
     for (int i = 0; i < SESSION_TABLE_MAX_ENTRIES; i++) V_ASSUME(in.tab.entries[i].last_activity_ts < (1ull << 62));
     g_plat.now_s = in.now_s; g_plat.now_ms = in.now_ms;
